@@ -1,5 +1,7 @@
 //! vkit: shared machinery of the verification harness (see /verif/DESIGN.md §3).
+pub mod acct;
 pub mod clock;
 pub mod fsutil;
+pub mod gen;
 pub mod pool;
 pub mod run;
